@@ -32,9 +32,9 @@ func main() {
 		os.Exit(coldPair(i, j))
 	}
 	coldCalls, coldBad := coldPass()
-	reps, rounds := 20, 8
+	reps, rounds := 6, 4
 	if *tier == "thorough" {
-		reps, rounds = 50, 20
+		reps, rounds = 30, 12
 	}
 	names := []string{}
 	for _, o := range c19ops.Ops {
